@@ -108,6 +108,26 @@ def c05_magic(ctx, case):
     c05_grid(ctx, case)
 
 
+# ---- high model orders ------------------------------------------------------------------------------------------------------
+@st.composite
+def highorder_case(draw):
+    row = draw(st.sampled_from(["pminvar", "pminvar", "pburg", "pyule", "pcovar", "pmodcovar"]))
+    cplx = draw(st.booleans())
+    x = draw(gen.signal(n=draw(st.integers(140, 260)), dtype="complex" if cplx else "real", kinds=("noise", "ar", "tones"),
+                        noise_levels=(0.1, 1.0), units=False))
+    order = draw(st.integers(25, 60))
+    lo = 2 * order if row == "pminvar" else order + 1
+    nfft = draw(st.sampled_from([lo, lo + 1, 128, 200, 257]))
+    return {"row": row, "x": x, "params": {"order": order}, "nfft": max(lo, nfft), "c": draw(st.sampled_from([2, 3]))}
+
+
+@sub("C05.highorder", strategy=highorder_case(), quick=80, thorough=1500, shards_quick=4,
+     doc="model orders 25..60 on records of 140..260 samples (the relational rows stop at 32): same clauses as C05.grid, in "
+         "particular the exposed AR vector has one length whatever the grid")
+def c05_highorder(ctx, case):
+    c05_grid(ctx, case)
+
+
 # ---- very long grids -------------------------------------------------------------------------------------------------------
 @st.composite
 def bigfft_case(draw):
